@@ -673,7 +673,154 @@ def build_extra():
          modifies=[], raises={}, bounded="BOUNDED: at most 2 source devices, caller paths of length 0..2")
     C.only_verify = ["BallSave._schedule_balls", "OutgoingBallsHandler.find_available_ball_in_path",
                      "BallDevice.find_one_available_ball", "BallSave.device_removed_from_mode"]
-    return [C, incoming_set(), multiball_set()]
+    return [C, incoming_set(), multiball_set(), request_queue_set()]
+
+
+def request_queue_set():
+    """BallDevice._ball_requests: a ball request is either served at once (one eject chain, set up at the first device of
+    a path that ends at the target) or stays in the device's queue - it is never dropped - and a queued request is taken
+    up again, oldest first, whenever a source announces available balls"""
+    C = ContractSet("C05q", "ball requests are served or stay queued, never dropped")
+    C.strings = False
+    C.cls("SystemWideDeviceB", fields={})
+    C.cls("Dev", fields=dict(name=Str))
+
+    def chain(I, env, a, k):
+        emit(I, "chain", at=env["self"].ref, path=list(I.container(I.force(a[0]).ref).items),
+             pc=a[1] if len(a) > 1 else k.get("player_controlled", VBool(False)))
+        return NONE
+    C.ext("Dev.setup_eject_chain", model=chain,
+          trusted_reason="BallDevice.setup_eject_chain on the first device of the path: claims one available ball there and "
+                         "books it for the target (C04)")
+
+    C.ext("BallDevice.setup_eject_chain", model=chain,
+          trusted_reason="BallDevice.setup_eject_chain (this device is the first of the path): claims one available ball and "
+                         "books it for the target (C04)")
+
+    def deque_model(I, a, k):
+        return I.new_list(list(I.iter_conc(a[0])) if a else [], "deque")
+    C.globals["deque"] = VFn("model", model=deque_model)
+
+    def requests(I, name):
+        """0..2 requests already queued: (target, player_controlled)"""
+        out = []
+        for i in range(I.ctx.fork(3)):
+            out.append(VTuple([I.fresh(ObjS("Dev"), "%s[%d].target" % (name, i)),
+                               VBool(z3.Bool("%s[%d].pc" % (name, i)))]))
+        return I.new_list(out, name)
+    C.cls("BallDevice", file=BD, check_bases=False,
+          fields=dict(available_balls=Int, _ball_requests=Init(requests), name=Str))
+
+    def the_target(I):
+        t = I.frames[0].env.get("target")
+        if t is None:           # _source_device_balls_available / request_ball: the request in question
+            return None
+        return I.force(t)
+
+    def path_to_target(I, env, a, k):
+        """a path [self, ..., target] ([self] for a request of this device itself), or no path"""
+        this = env["self"]
+        tgt = I.force(a[0])
+        if tgt.tag == "obj" and tgt.ref is this.ref:
+            return I.new_list([this], "path_to_self")
+        v = I.ctx.fork(3)
+        if v == 0:
+            return NONE
+        mid = [I.fresh(ObjS("Dev"), I.fresh_name("hop"))] if v == 2 else []
+        return I.new_list([this] + mid + [a[0]], I.fresh_name("path_to_target"))
+    C.ext("BallDevice.find_path_to_target", model=path_to_target,
+          trusted_reason="BallDevice.find_path_to_target: the eject path from this device to the target (starts at this "
+                         "device, ends at the target), or None")
+
+    def one_available(I, env, a, k):
+        """a path [source, ..., self] from a source that has an available ball, or nothing"""
+        v = I.ctx.fork(3)
+        if v == 0:
+            return VBool(False)
+        src = I.fresh(ObjS("Dev"), I.fresh_name("source"))
+        mid = [I.fresh(ObjS("Dev"), I.fresh_name("via"))] if v == 2 else []
+        return I.new_list([src] + mid + [env["self"]], I.fresh_name("path_from_source"))
+    C.ext("BallDevice.find_one_available_ball", model=one_available,
+          trusted_reason="BallDevice.find_one_available_ball (FS1, above): a path from a source with an available ball to "
+                         "this device, or False")
+    C.ext("BallDevice.debug_log", model=common.noop, trusted_reason="logging")
+
+    def entries(I, heap):
+        this = I.frames[0].env["self"].ref
+        return list(heap.data[(I.force(I.read_field(this, "_ball_requests", heap=heap)).ref, "$")].items)
+
+    def same_req(I, a, b):
+        a, b = I.force(a), I.force(b)
+        return z3.And(z3.BoolVal(I.force(a.items[0]).ref is I.force(b.items[0]).ref), I.eq(a.items[1], b.items[1]))
+
+    def queue_is(I, kind, target=None, pc=None):
+        """kind 'same': the queue is what it was; 'appended': old + [(target, pc)]; 'rotated' / 'popped': the oldest request
+        was taken off and (rotated) put back at the end"""
+        old, new = entries(I, I.old_heap), entries(I, I.heap)
+        kind = I.pyconst(I.force(kind))
+        if kind == "same":
+            want = old
+        elif kind == "appended":
+            want = old + [VTuple([target, pc])]
+        elif kind == "popped":
+            want = old[1:]
+        else:
+            want = old[1:] + old[:1]
+        if len(new) != len(want):
+            return VBool(False)
+        return VBool(z3.And([same_req(I, x, y) for x, y in zip(new, want)] + [z3.BoolVal(True)]))
+    C.helpers["queue_is"] = queue_is
+    C.helpers["n_chains"] = lambda I: VInt(len(events_named(I, "chain")))
+    C.helpers["n_queued"] = lambda I: VInt(len(entries(I, I.heap)))
+    C.helpers["n_queued_before"] = lambda I: VInt(len(entries(I, I.old_heap)))
+
+    def chain_reaches(I, target, pc):
+        """the one chain is set up AT the first device of its path, the path ends at the target and carries the request's
+        player_controlled flag"""
+        evs = events_named(I, "chain")
+        if len(evs) != 1:
+            return VBool(False)
+        e = evs[0]
+        path = [I.force(x).ref for x in e.args["path"]]
+        if not path or path[0] is not e.args["at"] or path[-1] is not I.force(target).ref:
+            return VBool(False)
+        return VBool(I.eq(e.args["pc"], pc))
+    C.helpers["chain_reaches"] = chain_reaches
+
+    def oldest(I, i):
+        old = entries(I, I.old_heap)
+        return I.force(old[0]).items[I.pyconst(I.force(i))] if old else NONE
+    C.helpers["oldest"] = oldest
+    C.trace_helpers = {"n_chains", "chain_reaches"}
+
+    def target_init(I, name):
+        return I.frames[0].env["self"] if I.ctx.fork(2) == 0 else I.fresh(ObjS("Dev"), name)
+    C.fn("BallDevice._setup_or_queue_eject_to_target", params=dict(target=Init(target_init), player_controlled=Bool),
+         result=Bool,
+         ensures=[("RQ1: a request is served at once - ONE eject chain, set up at the first device of a path that ends at the "
+                   "target, with the request's player-controlled flag, the queue untouched - or it is put at the END of this "
+                   "device's request queue with its target and flag: never dropped, never served twice",
+                   "(chain_reaches(target, player_controlled) and queue_is('same')) if result else "
+                   "(n_chains() == 0 and queue_is('appended', target, player_controlled))")],
+         modifies=["self._ball_requests.**"], raises={"AssertionError": True},
+         ensures_exc=[("a request for a target without a path is refused before anything happens",
+                       "n_chains() == 0 and queue_is('same')")], inline_calls=True)
+    C.fn("BallDevice._source_device_balls_available", params=dict(kwargs=Opaque("Kwargs")),
+         ensures=[("RQ2: when a source announces balls the OLDEST queued request is taken up: it is served (one chain to its "
+                   "target, the queue one shorter) or put back at the end (nothing lost); with an empty queue nothing happens",
+                   "(n_chains() == 0 and queue_is('same')) if n_queued_before() == 0 else "
+                   "((chain_reaches(oldest(0), oldest(1)) and queue_is('popped')) if n_chains() > 0 else "
+                   "queue_is('rotated'))")],
+         modifies=["self._ball_requests.**"], raises={"AssertionError": True})
+    C.fn("BallDevice.request_ball", params=dict(balls=Init(lambda I, name: VInt(I.ctx.fork(3)))), result=Int,
+         ensures=[("RQ3: every requested ball is accounted for: chains set up plus requests newly queued equal the number "
+                   "requested", "n_chains() + n_queued() - n_queued_before() == balls"),
+                  ("the number requested is returned", "result == balls")],
+         modifies=["self._ball_requests.**"], raises={"AssertionError": True},
+         bounded="BOUNDED: 0..2 balls requested, 0..2 requests already queued")
+    C.fns["BallDevice._setup_or_queue_eject_to_target"].bounded = "BOUNDED: 0..2 requests already queued, paths of 1..3 devices"
+    C.fns["BallDevice._source_device_balls_available"].bounded = "BOUNDED: 0..2 requests already queued, paths of 1..3 devices"
+    return C
 
 
 MB = "mpf/devices/multiball.py"
